@@ -145,14 +145,19 @@ def judge_history(seq):
     the configuration that produced it (E2: all mutation sequences up to the depth of the tier)"""
     cfg = sim.make_config(mode="Diffuse", spectrum="mono", cloud="none", optical=True, radio=False, n=40)
     out, n = [], 0
-    for step in range(len(seq) + 1):
-        if step:
-            cfg = mutate(cfg, seq[step - 1])
-        v, k = judge_run(cfg, 3 + step)
-        n += k
-        out += [(c, f"after {list(seq[:step])}: {e}", o) for c, e, o in v]
-        if v:
-            break
+    tmp = tempfile.mkdtemp(prefix="nssmc_c16h_")
+    try:
+        for step in range(len(seq) + 1):
+            if step:
+                cfg = mutate(cfg, seq[step - 1])
+            # every run of the history writes to the SAME path (as repeated `nuspacesim run -o out.fits` does)
+            v, k = judge_run(cfg, 3 + step, fn=os.path.join(tmp, "out.fits"))
+            n += k
+            out += [(c, f"after {list(seq[:step])}: {e}", o) for c, e, o in v]
+            if v:
+                break
+    finally:
+        shutil.rmtree(tmp, ignore_errors=True)
     return out, n
 
 
@@ -160,7 +165,8 @@ def _hist_job(seq):
     return judge_history(seq)
 
 
-def judge_run(cfg, seed):
+def judge_run(cfg, seed, fn=None):
+    """fn: write to (and reload from) THIS path, which may already hold an earlier run's file (a path reused across runs)"""
     from astropy.table import Table
 
     import nuspacesim.config as nc
@@ -171,7 +177,7 @@ def judge_run(cfg, seed):
     n_items = 0
     try:
         t = sim.run(cfg, seed=seed)
-        fn = os.path.join(tmp, "r.fits")
+        fn = fn or os.path.join(tmp, "r.fits")
         with warnings.catch_warnings():
             warnings.simplefilter("ignore")
             try:
@@ -259,6 +265,18 @@ def judge_run(cfg, seed):
                 out.append(("reloaded_set", sorted(must), sorted(must - rec)))
             if type(c2.simulation.spectrum) is not type(cfg.simulation.spectrum) or type(c2.simulation.cloud_model) is not type(cfg.simulation.cloud_model):
                 out.append(("reloaded_variant", type(cfg.simulation.spectrum).__name__, type(c2.simulation.spectrum).__name__))
+            # the caller edits the object it got back and loads the unchanged file again: the file's content comes back
+            try:
+                c2.title = str(c2.title) + " (edited)"
+                c2.simulation.thrown_events = int(c2.simulation.thrown_events) + 1
+                with warnings.catch_warnings():
+                    warnings.simplefilter("ignore")
+                    c3 = nc.config_from_fits(fn)
+                n_items += 1
+                if c3 is c2 or c3.simulation.thrown_events != cfg.simulation.thrown_events or c3.title != cfg.title:
+                    out.append(("reload_returns_the_file_not_an_earlier_object", f"title={cfg.title!r} thrown_events={cfg.simulation.thrown_events}", f"title={c3.title!r} thrown_events={c3.simulation.thrown_events}"))
+            except Exception as ex:
+                out.append(("config_from_fits", "a configuration on the second load", f"{type(ex).__name__}: {str(ex)[:160]}"))
     finally:
         shutil.rmtree(tmp, ignore_errors=True)
     return out, n_items
